@@ -1510,6 +1510,11 @@ func (g *Gen) makeInterface(fr *frame, st *State, x *Value, xt types.Type, it ty
 		return &Value{T: it, L: []string{tag, "0"}, Dyn: xt}
 	}
 	if x.LV != nil && strings.HasPrefix(x.L[0], "?") {
+		// an address (of a field, element or local) boxed into an interface: its opaque identity (see materialize);
+		// whoever receives it is opaque or trusted, so the link back to the field is carried by that contract's modifies
+		if mv, ok := g.materialize(x); ok {
+			return &Value{T: it, L: []string{tag, mv.L[0]}, Dyn: xt}
+		}
 		g.errorf("%s: interior pointer boxed into interface (unsupported)", funcKey(fr.fn))
 		return g.freshValue(st, "iface", it)
 	}
